@@ -298,6 +298,11 @@ class DilCase:
             self.step += 1
             self.install_traces()
             choices = [(P["w_progress"], e) for e in W.enabled()]
+            if not choices:
+                # nothing to deliver: letting virtual time pass (to the next timer) is a choice like any other
+                nt = W.next_timer()
+                if nt is not None and nt - W.clock.seconds() <= P.get("max_tick", 35.0):
+                    choices.append((P["w_progress"], ("tick", nt)))
             seen_kinds = set()
             for it in intents:
                 # keep per-(kind,target) issue order: only the first enabled intent of each target
@@ -331,6 +336,8 @@ class DilCase:
                     self.do_kill(e[1])
                 elif e[0] == "custom":
                     e[1](self)
+                elif e[0] == "tick":
+                    W.clock.advance(max(0.0, e[1] - W.clock.seconds()))
                 else:
                     W.do(e, W.arg_for(e, tape))
             except Exception as ex:
